@@ -9,38 +9,49 @@ from contracts.display import H, sel, lst, base
 
 I, S, B = z3.IntSort(), z3.StringSort(), z3.BoolSort()
 AH, AV, AS = z3.ArraySort(S, B), z3.ArraySort(S, I), z3.ArraySort(S, S)
-# oracle fold over the exported names KS[0:k]
-UH = z3.Function("USEFOLD_H", z3.SeqSort(S), I, B, AH, AS, AV, AH)
-UV = z3.Function("USEFOLD_V", z3.SeqSort(S), I, B, AH, AS, AV, AV)
+# oracle folds.  EXPFOLD: over the exported names KS[0:k] of the used module (no ONLY list): a name comes in under its own name unless the USE statement renames it.
+# CLAUSEFOLD: over the items LS[0:k] of the USE statement (local name -> name in the used module): a listed name that the module exports comes in under its local name.
+AL = z3.SeqSort(I)          # a list of strings is a sequence of interned ids (SID)
+EH = z3.Function("EXPFOLD_H", z3.SeqSort(S), I, AL, AV, AH)
+EV = z3.Function("EXPFOLD_V", z3.SeqSort(S), I, AL, AV, AV)
+CH = z3.Function("CLAUSEFOLD_H", z3.SeqSort(S), I, AH, AV, AS, AH, AV, AH)
+CV = z3.Function("CLAUSEFOLD_V", z3.SeqSort(S), I, AH, AV, AS, AH, AV, AV)
+EMPTY_H, EMPTY_V = z3.K(S, z3.BoolVal(False)), z3.K(S, z3.IntVal(0))
 
 
-def use_step(h, v, only, uh, uv, exp_v, nm):
-    """the standard's rule for one exported name nm (lower case) bound to exp_v[nm]:
-       ONLY list: imported iff listed, under its local name;  no ONLY: imported under the local name if renamed, else under its own"""
+def exp_unfold(ks, k, renamed, exp_v):
+    """the standard's rule for one exported name without an ONLY list: accessible under its own name iff no rename clause of the statement names it"""
+    a = (renamed, exp_v)
+    nm = ks[k]
     key = LOWER(nm)
-    listed = z3.Select(uh, key)
-    local = z3.If(listed, z3.Select(uv, key), key)
-    take = z3.Or(z3.Not(only), listed)
-    obj = z3.Select(exp_v, nm)
-    return z3.If(take, z3.Store(h, local, True), h), z3.If(take, z3.Store(v, local, obj), v)
+    take = z3.Not(z3.Contains(renamed, z3.Unit(SID(key))))
+    h, v = EH(ks, k, *a), EV(ks, k, *a)
+    return [EH(ks, 0, *a) == EMPTY_H, EV(ks, 0, *a) == EMPTY_V,
+            EH(ks, k + 1, *a) == z3.If(take, z3.Store(h, key, True), h), EV(ks, k + 1, *a) == z3.If(take, z3.Store(v, key, z3.Select(exp_v, nm)), v)]
 
 
-def use_unfold(ks, k, only, uh, uv, exp_v):
-    a = (only, uh, uv, exp_v)
-    h1, v1 = use_step(UH(ks, k, *a), UV(ks, k, *a), only, uh, uv, exp_v, ks[k])
-    return [UH(ks, 0, *a) == z3.K(S, z3.BoolVal(False)), UV(ks, 0, *a) == z3.K(S, z3.IntVal(0)),
-            UH(ks, k + 1, *a) == h1, UV(ks, k + 1, *a) == v1]
+def clause_unfold(ls, k, base_h, base_v, un_v, exp_h, exp_v):
+    """... and for one item `local => remote` (or `name`, i.e. name => name) of the statement: the local name denotes the entity the module exports as `remote`, if there is one;
+    every item counts - one entity may get several local names"""
+    a = (base_h, base_v, un_v, exp_h, exp_v)
+    local = ls[k]
+    remote = z3.Select(un_v, local)
+    take = z3.Select(exp_h, remote)
+    h, v = CH(ls, k, *a), CV(ls, k, *a)
+    return [CH(ls, 0, *a) == base_h, CV(ls, 0, *a) == base_v,
+            CH(ls, k + 1, *a) == z3.If(take, z3.Store(h, local, True), h), CV(ls, k + 1, *a) == z3.If(take, z3.Store(v, local, z3.Select(exp_v, remote)), v)]
 
 
 def used_objects(kind="pub_procs", prop="C06"):
-    """decide half of FortranModule.get_used_entities: the closure used_objects(object_type, only) with the parsed clause
-    (only, used_names) as ordinary inputs"""
+    """decide half of FortranModule.get_used_entities: the closure used_objects(object_type, only) with the parsed clause (only, used_names: local -> remote, renamed: the
+    remote names of the rename items) as ordinary inputs.  Oracle: the USE view of the standard (F2018 14.2.2) - see the two folds above."""
     c = base(Contract("ford.sourceform", "FortranModule.get_used_entities.used_objects", prop))
     c.qual_suffix = kind
     c.param("object_type", TConst(kind))
     c.param("only", TBool())
     c.param("self", TRef("FortranModule"))
-    c.param("used_names", TDict("str", "str"))       # free variable of the closure: remote (lower) -> local (lower)
+    c.param("used_names", TDict("str", "str"))       # free variables of the closure: local (lower) -> remote (lower) ...
+    c.param("renamed", TList("str"))                 # ... and the remote names that a rename item mentions
     c.hints["dict"] = "ref"
     E = lambda v: V(v._e, v._e.entry)
 
@@ -48,44 +59,64 @@ def used_objects(kind="pub_procs", prop="C06"):
         eng.field_array(path, kind)
         path.heap._dmap(SDict(0, "str", "ref"))
         path.heap._dmap(SDict(0, "str", "str"))
+        path.heap._lmap("str")
     c.extra_setup.append(setup)
+    expd = lambda e: SDict(sel(H(e, kind), e.self), "str", "ref")
+    # the tables of a module are keyed by lower-cased names (C06.S.casefold.tables.*: every store folds its key)
+    c.requires("exported_names_are_lower_case", lambda v: z3.BoolVal(True))
+    class _Ghost:
+        """the key sequence a loop iterates over, remembered in the environment of the path (cloned with it): the paths of the two branches of `if not only` run the second loop
+        one after the other, each with an iterator of its own"""
+        def __init__(self, seq):
+            self.t = seq
 
-    def ctx(e):
-        un = e.val("used_names")
-        exp = SDict(sel(H(e, kind), e.self), "str", "ref")
-        return (e.only, e.heap.dict_has(un), e.heap.dict_val(un), e.heap.dict_val(exp))
-    c.requires("tables_are_lowercase", lambda v: z3.BoolVal(True))
+    def base_of(e, p):
+        """what the first loop leaves: nothing under an ONLY list, else the exported names that are not renamed away"""
+        g = p.env.get("__ks0")
+        if g is None:
+            return EMPTY_H, EMPTY_V
+        ks = g.t
+        a = (renamed_seq(e), e.heap.dict_val(expd(e)))
+        return z3.If(e.only, EMPTY_H, EH(ks, z3.Length(ks), *a)), z3.If(e.only, EMPTY_V, EV(ks, z3.Length(ks), *a))
 
-    def inv(v):
-        e = E(v)
-        r = v.val("result")
-        return z3.And(v.heap.dict_has(r) == UH(v.it.seq, v.k, *ctx(e)), v.heap.dict_val(r) == UV(v.it.seq, v.k, *ctx(e)))
+    def renamed_seq(e):
+        return e.renamed
 
     def frame(v):
         e = E(v)
-        un = e.val("used_names")
-        exp = SDict(sel(H(e, kind), e.self), "str", "ref")
-        return z3.And(v.heap.dict_has(un) == e.heap.dict_has(un), v.heap.dict_val(un) == e.heap.dict_val(un),
+        un, exp = e.val("used_names"), expd(e)
+        return z3.And(v.heap.dict_has(un) == e.heap.dict_has(un), v.heap.dict_val(un) == e.heap.dict_val(un), v.renamed == e.renamed,
                       v.heap.dict_has(exp) == e.heap.dict_has(exp), v.heap.dict_val(exp) == e.heap.dict_val(exp), H(v, kind) == H(e, kind))
-    c.loop(0, invariants=[("result_is_oracle_fold", inv), ("frame", frame)], unfold=lambda v: use_unfold(v.it.seq, v.k, *ctx(E(v))),
-           variant=lambda v: z3.Length(v.it.seq) - v.k)
+
+    def inv0(v):
+        e = E(v)
+        v._p.env["__ks0"] = _Ghost(v.it.seq)
+        r = v.val("result")
+        a = (renamed_seq(e), e.heap.dict_val(expd(e)))
+        return z3.And(v.heap.dict_has(r) == EH(v.it.seq, v.k, *a), v.heap.dict_val(r) == EV(v.it.seq, v.k, *a))
+    c.loop(0, invariants=[("result_is_the_fold_of_the_exported_names", inv0), ("frame", frame)],
+           unfold=lambda v: exp_unfold(v.it.seq, v.k, renamed_seq(E(v)), E(v).heap.dict_val(expd(E(v)))), variant=lambda v: z3.Length(v.it.seq) - v.k)
+
+    def ctx1(e, p):
+        bh, bv = base_of(e, p)
+        return (bh, bv, e.heap.dict_val(e.val("used_names")), e.heap.dict_has(expd(e)), e.heap.dict_val(expd(e)))
+
+    def inv1(v):
+        e = E(v)
+        v._p.env["__ks1"] = _Ghost(v.it.seq)
+        r = v.val("result")
+        return z3.And(v.heap.dict_has(r) == CH(v.it.seq, v.k, *ctx1(e, v._p)), v.heap.dict_val(r) == CV(v.it.seq, v.k, *ctx1(e, v._p)))
+    c.loop(1, invariants=[("result_is_the_fold_of_the_statement_s_items", inv1), ("frame", frame)],
+           unfold=lambda v: clause_unfold(v.it.seq, v.k, *ctx1(E(v), v._p)), variant=lambda v: z3.Length(v.it.seq) - v.k)
     c.loop_result_seq = None
 
     def post(v0, res, v1):
-        ks = c._ks[0]
-        return z3.And(v1.heap.dict_has(res) == UH(ks, z3.Length(ks), *ctx(v0)), v1.heap.dict_val(res) == UV(ks, z3.Length(ks), *ctx(v0)))
-    c._ks = [None]
-    # the post needs the iteration sequence chosen by the loop: recorded through the invariant accessor
-    inv0 = c.loops[0].invariants[0][1]
-
-    def inv_rec(v):
-        c._ks[0] = v.it.seq
-        return inv0(v)
-    c.loops[0].invariants[0] = ("result_is_oracle_fold", inv_rec)
+        ls = v1._p.env["__ks1"].t
+        return z3.And(v1.heap.dict_has(res) == CH(ls, z3.Length(ls), *ctx1(v0, v1._p)), v1.heap.dict_val(res) == CV(ls, z3.Length(ls), *ctx1(v0, v1._p)))
     c.ensures("imports_are_the_standards_use_view", post)
 
     def fr(v0, res, v1):
-        exp = SDict(sel(H(v0, kind), v0.self), "str", "ref")
+        exp = expd(v0)
         return z3.And(v1.heap.dict_has(exp) == v0.heap.dict_has(exp), v1.heap.dict_val(exp) == v0.heap.dict_val(exp), res.id > v0.heap.alloc0)
     c.ensures("exports_untouched_and_result_is_new", fr, role="frame")
     c.no_raise = True
